@@ -9,7 +9,7 @@ RULE = ("random histories on echsd.c compiled against the virtual-time event loo
 
 
 def run(ctx):
-    p_echsd.run_checks(ctx, "C04", {"steps": 26, "spawnfail": True, "chk": False, "p_cancel": 0.15}, 500, 6000, RULE)
+    p_echsd.run_checks(ctx, "C04", {"steps": 26, "spawnfail": True, "chk": False, "p_cancel": 0.15, "allday": True}, 500, 6000, RULE)
 
 
 replay = p_echsd.replay
